@@ -316,7 +316,19 @@ func (jenny RawTypes) defaultValueForStructs(def ast.StructType, m *orderedmap.M
 		if m.Has(f.Name) {
 			switch x := m.Get(f.Name).(type) {
 			case map[string]any:
-				buffer.WriteString(fmt.Sprintf("%s: %v, ", f.Name, jenny.defaultValueForStructs(f.Type.AsStruct(), orderedmap.FromMap(x))))
+				// the field can be a struct, a reference to one, or something else holding an object (a map, ...)
+				fieldType := f.Type
+				if fieldType.IsRef() {
+					if referredType, refFound := jenny.schemas.LocateObject(fieldType.AsRef().ReferredPkg, fieldType.AsRef().ReferredType); refFound {
+						fieldType = referredType.Type
+					}
+				}
+
+				if fieldType.IsStruct() {
+					buffer.WriteString(fmt.Sprintf("%s: %v, ", f.Name, jenny.defaultValueForStructs(fieldType.AsStruct(), orderedmap.FromMap(x))))
+				} else {
+					buffer.WriteString(fmt.Sprintf("%s: %v, ", f.Name, formatValue(x)))
+				}
 			case nil:
 				buffer.WriteString(fmt.Sprintf("%s: %v, ", f.Name, formatValue([]any{})))
 			default:
